@@ -51,6 +51,7 @@ class _Helper(object):
         self.qual = qual
         self.owner = owner        # ClassDef / FunctionDef / Module containing the def
         self.uses = 0
+        self.home = None          # ModuleInfo of a helper that lives in another module than its caller
 
     @property
     def name(self):
@@ -221,8 +222,9 @@ def _nest_else(stmts):
     guarding the rest of a helper count as tail returns)."""
     for i, s in enumerate(stmts):
         if isinstance(s, ast.If) and i + 1 < len(stmts) and any(isinstance(n, ast.Return) for n in _walk_own([s])):
-            if not s.orelse and not _falls_through(s.body):
-                s.orelse = _nest_else(stmts[i + 1:])
+            if not _falls_through(s.body):
+                # the branch leaves: what follows the statement runs only after the else-part (an elif chain included)
+                s.orelse = _nest_else(list(s.orelse) + stmts[i + 1:])
                 s.body = _nest_else(s.body)
                 return stmts[:i + 1]
             if s.orelse and not _falls_through(s.orelse) and _falls_through(s.body):
@@ -425,6 +427,30 @@ class Inliner(object):
             if isinstance(s, ast.FunctionDef) and (m.name + '.' + s.name) not in KNOWN and self._ok_def(s):
                 modhelpers[s.name] = _Helper(s, 'module', m.name + '.' + s.name, m.tree, self._ok_def(s) == 'gen')
 
+        # module-level helpers of sibling modules reachable through this module's imports
+        xhelpers, modalias = {}, {}
+
+        def sibling(modname, level):
+            base = (modname or '').split('.')[-1] if modname else ''
+            return self.modules.get(base) if base in self.modules else None
+        for s in m.tree.body:
+            if isinstance(s, ast.ImportFrom):
+                if not s.module and s.level >= 1:
+                    for a_ in s.names:                      # from . import proxy [as p]
+                        if a_.name in self.modules:
+                            modalias[a_.asname or a_.name] = self.modules[a_.name]
+                else:
+                    sm = sibling(s.module, s.level) if (s.level >= 1 or (s.module or '').startswith('lomond')) else None
+                    if sm is not None and sm is not m:
+                        for a_ in s.names:                  # from .proxy import _helper [as h]
+                            for d_ in sm.tree.body:
+                                if isinstance(d_, ast.FunctionDef) and d_.name == a_.name and (sm.name + '.' + d_.name) not in KNOWN \
+                                        and self._ok_def(d_):
+                                    hx = _Helper(d_, 'module', sm.name + '.' + d_.name, sm.tree, self._ok_def(d_) == 'gen')
+                                    hx.home = sm
+                                    xhelpers[a_.asname or a_.name] = hx
+        self._modalias = modalias
+
         def do_func(fn, qual, clsnode, clshelpers, recv, enclosing_nested, recv_kind='method'):
             nonlocal changed
             # nested helpers defined directly in this function
@@ -433,6 +459,7 @@ class Inliner(object):
                 if isinstance(n, ast.FunctionDef) and (qual + '.' + n.name) not in KNOWN and self._ok_def(n):
                     nested[n.name] = _Helper(n, 'nested', qual + '.' + n.name, fn, self._ok_def(n) == 'gen')
             ctx = dict(fn=fn, qual=qual, recv=recv, clshelpers=clshelpers, nested=nested, modhelpers=modhelpers, module=m,
+                       xhelpers=xhelpers, modalias=modalias,
                        clsname=(clsnode.name if clsnode is not None else None), recv_kind=recv_kind)
             nb = self._stmts(fn.body, ctx)
             if nb is not None:
@@ -528,7 +555,32 @@ class Inliner(object):
             h = ctx['modhelpers'].get(f.id)
             if h is not None and h.node is not ctx['fn']:
                 return h
+            if f.id not in self._local_names(ctx['fn']):
+                h = ctx.get('xhelpers', {}).get(f.id)
+                if h is not None:
+                    return h
+        if isinstance(f, ast.Attribute) and isinstance(f.value, ast.Name) and f.value.id in ctx.get('modalias', {}) \
+                and f.value.id not in self._local_names(ctx['fn']):
+            sm = ctx['modalias'][f.value.id]
+            key = (sm.name, f.attr)
+            cache = self.__dict__.setdefault('_xcache', {})
+            if key not in cache:
+                cache[key] = None
+                for d_ in sm.tree.body:
+                    if isinstance(d_, ast.FunctionDef) and d_.name == f.attr and (sm.name + '.' + d_.name) not in KNOWN \
+                            and self._ok_def(d_):
+                        hx = _Helper(d_, 'module', sm.name + '.' + d_.name, sm.tree, self._ok_def(d_) == 'gen')
+                        hx.home = sm
+                        cache[key] = hx
+            return cache[key]
         return None
+
+    def _local_names(self, fn):
+        names = set(a.arg for a in ast.walk(fn.args) if isinstance(a, ast.arg))
+        for n in _walk_own(fn.body):
+            if isinstance(n, ast.Name) and isinstance(n.ctx, (ast.Store, ast.Del)):
+                names.add(n.id)
+        return names
 
     def _first_call(self, e, ctx):
         """The helper call that is evaluated before any other effect of expression e (or None)."""
@@ -814,10 +866,44 @@ class Inliner(object):
                 names[nm] = '%s_i%d' % (nm, tag)
         # free variables of a method/module helper must not be captured by caller locals: a helper's free names are
         # globals/builtins; if the caller has a local of that name the text would change meaning
+        free = set()
         if h.kind != 'nested':
             free = set(n.id for n in _walk_own(body) if isinstance(n, ast.Name)) - stored - set(params) - set(kwonly) \
                 - set(subst)
             if free & caller_locals:
+                return None
+        if h.home is not None and h.home is not ctx['module']:
+            # names the helper reads from its own module must mean the same thing at the call site: reached through an
+            # alias of that module, imported under the same name, or bound by an identical top-level statement
+            import builtins as _b
+            home, here = h.home, ctx['module']
+
+            def top(mod, nm):
+                for d_ in mod.tree.body:
+                    if isinstance(d_, (ast.FunctionDef, ast.ClassDef)) and d_.name == nm:
+                        return d_
+                    if isinstance(d_, ast.Assign) and any(isinstance(t, ast.Name) and t.id == nm for t in d_.targets):
+                        return d_
+                    if isinstance(d_, (ast.Import, ast.ImportFrom)) and any((x.asname or x.name.split('.')[0]) == nm
+                                                                            for x in d_.names):
+                        return d_
+                return None
+            alias = [k for k, v in ctx.get('modalias', {}).items() if v is home]
+            for nm in sorted(free):
+                dh = top(home, nm)
+                if dh is None:
+                    if hasattr(_b, nm) and top(here, nm) is None:
+                        continue
+                    return None
+                dc = top(here, nm)
+                if dc is not None and ast.dump(dc) == ast.dump(dh):
+                    continue
+                if isinstance(dc, ast.ImportFrom) and (dc.module or '').split('.')[-1] == home.name and any(
+                        x.name == nm and (x.asname or x.name) == nm for x in dc.names):
+                    continue
+                if dc is None and alias and not isinstance(dh, (ast.Import, ast.ImportFrom)):
+                    subst[nm] = ast.Attribute(value=ast.Name(id=alias[0], ctx=ast.Load()), attr=nm, ctx=ast.Load())
+                    continue
                 return None
         kwname = a.kwarg.arg if a.kwarg is not None else None
         rn = _Rename(names, subst, kwname, extra)
